@@ -163,6 +163,25 @@ def check(rep, F, tier, replay=None):
             rep.lost("constant emip3::password_encryption_parameter::%s" % name)
         elif int(c["val"]) != want:
             rep.violation("K-emip3", name, "EMIP-3 constant %s is %s, the container format requires %s" % (name, c["val"], want), {})
+    # DEC-reject: what a raw key / signature decoder may reject on its own
+    rep.rule("DEC-reject", "the raw decoders of chain_crypto (public_from_binary / secret_from_binary / signature_from_bytes) build only the size error themselves; every other rejection is the key library's own verified constructor - a hand-written structure test can reject keys the library itself derives, breaking their byte / hex / bech32 round trip")
+    n_dec = 0
+    for fid, fn in sorted(F.fns.items()):
+        last = fid.rsplit("::", 1)[-1]
+        if last not in ("public_from_binary", "secret_from_binary", "signature_from_bytes") or "/tests/" in fn["file"] or "::{closure" in fid:
+            continue
+        n_dec += 1
+        rep.inst("DEC-reject")
+        errs = set()
+        for sub in [fid] + [c for c in F.fns if c.startswith(fid + "::{closure")]:
+            for bb in F.fns[sub]["bbs"]:
+                for st in bb["st"]:
+                    if st[1] == "=" and st[3][0] == "agg" and st[3][1] == "adt" and st[3][2].endswith("Error"):
+                        errs.add("%s::%s" % (st[3][2].rsplit("::", 1)[-1], st[3][3]))
+        extra = sorted(e for e in errs if not e.endswith("::SizeInvalid"))
+        if extra:
+            rep.violation("DEC-reject", "%s|%s" % (F.key(fid), ",".join(extra)), "%s rejects input with %s on its own: keys that the library generates or derives and that fail this hand-written test no longer survive from_bytes(as_bytes()) / hex / bech32" % (F.key(fid), ", ".join(extra)), {})
+    rep.floor("raw key / signature decoders inventoried", 10, n_dec)
     return rep.finish(
         EXPLANATION,
         ["cryptoxide and ed25519-bip32 implement their primitives correctly", "ChaChaPoly1305::decrypt returns true exactly when the tag verifies"],
